@@ -1,4 +1,5 @@
 import Libp2pModel.Model.SwarmSpec
+import Libp2pModel.Model.SwarmLife
 /-!
 # Shared driver for the Swarm-core properties: model step + Spec monitors on the implementation's lines.
 `machine pfx` reports only the violated clauses whose key starts with `pfx` (e.g. "C02:").
@@ -11,7 +12,9 @@ structure Mon where
   h : Hist := {}
   op : Option Op := none
   line : Option IO.ImplLine := none
-  deriving Inhabited
+  /-- the proved life-cycle monitor (`Swarm.Life`), run on the implementation's ordered log;
+  `none` once it has rejected -/
+  life : Option Life.LM := some { st := fun _ => .fresh, q := none }
 
 def verdict (pfx : String) (vs : List String) : String :=
   match vs.filter (·.startsWith pfx) with
@@ -56,8 +59,12 @@ def onOrder (pfx : String) (m : Mon) (toks : List String) : Mon × String :=
   let v3 := match m.line with
     | some l => h.checkObs l
     | none => []
+  let life' := m.life.bind (fun lm => (Life.feedAll lm raw).bind Life.endStep)
+  let vLife := match m.life, life' with
+    | some _, none => ["C01:lifecycle_monitor_rejects"]
+    | _, _ => []
   let vUnknown := if raw.any (fun e => match e with | .other _ => true | _ => false) then [pfx ++ "unparsable_event"] else []
-  ({ m with h, line := none, op := none }, verdict pfx (v1 ++ v2 ++ v3 ++ vUnknown))
+  ({ m with h, line := none, op := none, life := life' }, verdict pfx (v1 ++ v2 ++ v3 ++ vLife ++ vUnknown))
 
 /-- the raw (ordered) log line: the model's events in the order the model produces them, except that
 `mux,closed` entries (emitted by detached close tasks whenever they get polled) are moved to the end -/
